@@ -19,7 +19,7 @@ DRIVERS = {
     'utf8': ['decoder', 'scalars', 'utils'], 'input': ['decoder', 'scalars'], 'utils': ['utils', 'scalars', 'autocomplete', 'editor'],
     'token': ['token'], 'arguments': ['token', 'scalars', 'derive_parse'], 'command': ['token', 'cli'], 'help': ['token', 'scalars', 'cli'],
     'editor': ['editor', 'cli'], 'history': ['history', 'cli'], 'autocomplete': ['autocomplete', 'cli'],
-    'tmpl_autocomplete': ['cli', 'derive_hidden'], 'tmpl_group_autocomplete': ['derive_hidden', 'cli'], 'tmpl_group_help': ['derive_fail', 'derive_help', 'cli'], 'tmpl_command_help': ['derive_fail', 'derive_help'], 'writer': ['writer', 'cli'], 'cli': ['cli'], 'builder': ['cli'], 'service': ['cli'],
+    'tmpl_autocomplete': ['cli', 'derive_hidden'], 'tmpl_group_autocomplete': ['derive_hidden', 'cli'], 'tmpl_group_help': ['derive_fail', 'derive_help', 'cli'], 'tmpl_command_help': ['derive_fail', 'derive_help'], 'writer': ['writer', 'cli'], 'cli': ['cli', 'derive_fail', 'derive_help'], 'builder': ['cli'], 'service': ['cli'],
     'buffer': ['editor', 'history'], 'codes': ['cli'],
 }
 # drivers that accept a property filter
